@@ -152,3 +152,53 @@ func Shrink(tr vs.Trace, test func(vs.Trace) (bool, vs.Trace), deadline time.Tim
 	}
 	return cur
 }
+
+// ShrinkBytes minimises a byte string with delta debugging: remove chunks,
+// then zero bytes, while test keeps reporting the same failure.
+func ShrinkBytes(in []byte, test func([]byte) bool, deadline time.Time) []byte {
+	cur := append([]byte(nil), in...)
+	try := func(c []byte) bool {
+		if time.Now().After(deadline) {
+			return false
+		}
+		if test(c) {
+			cur = append([]byte(nil), c...)
+			return true
+		}
+		return false
+	}
+	for pass := 0; pass < 6; pass++ {
+		before := len(cur)
+		changed := false
+		for size := len(cur); size >= 1; size /= 2 {
+			for start := 0; start+size <= len(cur); {
+				c := append(append([]byte(nil), cur[:start]...), cur[start+size:]...)
+				if !try(c) {
+					start += size
+				} else {
+					changed = true
+				}
+				if time.Now().After(deadline) {
+					return cur
+				}
+			}
+		}
+		for i := 0; i < len(cur); i++ {
+			if cur[i] == 0 {
+				continue
+			}
+			c := append([]byte(nil), cur...)
+			c[i] = 0
+			if try(c) {
+				changed = true
+			}
+			if time.Now().After(deadline) {
+				return cur
+			}
+		}
+		if len(cur) == before && !changed {
+			break
+		}
+	}
+	return cur
+}
